@@ -3,9 +3,17 @@
 Ownership model + snapshots: before each call the harness snapshots (owner, hold_count) of every
 registered lock; stubs for work / validate / checkpoint conditions log invocation order and sample
 ownership from INSIDE work_fn; after the call the real state is compared with the model. The
-product (preemption mask x request list x pre-existing holder x fault point) is enumerated.
+product (preemption mask x request list x pre-existing holder x fault point) is enumerated; on top
+of every enumerated case independent modifiers are drawn from the case rng (controller checkpoint
+configuration, watchdog time scale, priority arithmetic, validation verdict, a re-registration of a
+resource while it is held, read-only API calls interleaved everywhere, a second differently
+configured instance used alternately, a case-differing resource id held by a bystander, mutation of
+the request list after the call started). After the enumeration come long single-instance sessions
+(> 20 000 operations each) judged by the same obligations.
 """
+import math
 import sys
+import time as _rtime
 
 from rv import core
 from rv.vclock import VClock, patched
@@ -16,12 +24,21 @@ LEVEL = "fault_enumeration"
 TECHNIQUE = "runtime monitoring with fault injection: enumerated request lists x holders x fault points driven through the real controller; ownership snapshots, in-work ownership sampling and callback order logs checked against an ownership model"
 RULE = ("enumeration: preemption mask (4) x request lists of length <= 3 (quick) / <= 4 (thorough) over {r1,r2,r3,unknown} incl. repeats x "
         "pre-existing holder (none | holding each non-empty subset at lower/equal/higher priority | holding r1 twice) x fault point "
-        "(none, G0/G1/S/G2 checkpoint false or raising, work raises, work falsy, validate false/raises/absent, kill or watchdog timeout from inside work, "
-        "a nested coordinated operation run from inside work followed by failure, manual kill / shutdown / watchdog kill delivered from a checkpoint condition) "
-        "+ seeded follow-ups (second operation reusing ids, holder complete/abort/manual kill/watchdog, shutdown); 1 case in 8 goes through IntegratedCell.execute; "
+        "(none, G0/G1/S/G2 checkpoint false or raising, work raises, work falsy, validate false/raises/absent, kill / shutdown / watchdog timeout from inside work or from inside validate, "
+        "a nested coordinated operation run from inside work (also one that preempts the outer operation's own resources) followed by failure, manual kill / shutdown / watchdog kill delivered from a checkpoint condition) "
+        "+ per-case modifiers drawn from the case rng: checkpoint configuration (default | user-supplied full dict | partial dict | G2 list replaced | G2 list empty), watchdog time scale "
+        "(100 s | sub-second | more than a day with a two-day jump | None | zero), priority arithmetic (small ints | zero/negative | above 2**53 | last-bit floats | signed zero | inf | nan), "
+        "validation verdict for fault points that reach validation (True | False | 0 | raises | absent | truthy non-bool), re-registration of a resource id before the call / from work / validate / a checkpoint, "
+        "read-only API calls at every callback and between calls, a second differently configured instance with the same ids, a bystander holding a case-differing id, request list mutated from inside work "
+        "+ seeded follow-ups (second operation reusing ids, holder complete/abort/manual kill/watchdog, shutdown, re-registration, reads) and a final shutdown of every case; 1 case in 7 goes through IntegratedCell; "
+        "+ long sessions (quick 2 x 38 000, thorough 6 x 45 000 steps on one instance: > 25 000 coordinated operations and > 20 000 distinct operation ids each); "
         "non-trivial = case has a fault or a contended / repeated / unknown resource; distinct = (mask, list, holder, fault)")
 ASSUMPTIONS = ["'untouched' = owner and hold_count of locks the operation never obtained; waiting lists may change",
-               "a kill issued from inside work_fn is a fault point; ownership is sampled before the kill"]
+               "a kill issued from inside work_fn is a fault point; ownership is sampled before the kill",
+               "'validation returning false' covers the falsy verdicts False and 0 (the unchanged tree tests truthiness); truthy non-bool verdicts carry no obligation",
+               "a resource id registered again by the USER while it is held is the user's action: that id is exempt from 'untouched', never from 'not owned by the finished operation'",
+               "'raising' = Exception subclasses whose str() works; BaseException-only signals and exceptions with a raising __str__ are not judged",
+               "whether a watchdog configured with a zero timeout kills is not judged (either outcome accepted); an expired positive timeout must kill"]
 
 RES = ["r1", "r2", "r3"]
 SYMS = ["r1", "r2", "r3", "unknown"]
@@ -30,7 +47,14 @@ FAULTS = ["none", "g0_false", "g1_false", "g1_raise", "s_false", "s_raise", "g2_
           "validate_false", "validate_raises", "validate_absent", "kill_in_work", "watchdog_in_work",
           "nested_work_raises", "nested_validate_false", "nested_validate_raises", "nested_ok",
           "kill_in_g0_cp", "shutdown_in_g0_cp", "watchdog_in_g0_cp", "kill_in_s_cp", "kill_in_g2_cp",
-          "work_raises_empty", "validate_raises_empty", "validate_assert", "g1_raise_empty"]
+          "work_raises_empty", "validate_raises_empty", "validate_assert", "g1_raise_empty",
+          "kill_in_validate", "shutdown_in_work", "shutdown_in_validate", "watchdog_in_validate", "nested_preempts"]
+WORK_EXC = ("work_raises", "nested_work_raises", "work_raises_empty")
+VMODE_OF_FAULT = {"validate_absent": "absent", "validate_false": "false", "nested_validate_false": "false", "validate_raises": "raises",
+                  "nested_validate_raises": "raises", "validate_raises_empty": "raises_empty", "validate_assert": "assert"}
+SESSIONS = {"quick": 2, "thorough": 6}
+SESSION_OPS = {"quick": 38000, "thorough": 45000}
+RESULT = {"answer": 42}     # one module-level object returned by every work function of every case
 
 
 def holders():
@@ -67,16 +91,69 @@ def space(tier):
 
 def plan(tier):
     total, _ = space(tier)
-    return {"cases": total, "shards": 8 if tier == "quick" else 14, "min_nontrivial": 1000,
+    return {"cases": total + SESSIONS[tier], "shards": 8 if tier == "quick" else 14, "min_nontrivial": 1000,
             "timeout": 600 if tier == "quick" else 2400, "exhaustive": True, "min_fraction": 1.0,
             "require": {"execute_calls": total, "work_runs_sampled": 5000, "blocked_acquisitions": 5000, "preemptions": 500,
                         "reentrant_requests": 2000, "checkpoint_faults_hit": 2000, "kills_inside_work": 1000,
                         "followup_ops": 5000, "holder_exits_checked": 3000, "cell_entry": 1000, "nested_operations": 1000,
-                        "kills_from_checkpoint": 2000}}
+                        "kills_from_checkpoint": 2000,
+                        # round 3
+                        "kills_inside_validate": 300, "custom_checkpoint_configs": 10000, "validation_rejected_after_work": 1500,
+                        "rejected_under_custom_config": 300, "rejected_after_kill": 40, "reregistrations": 5000,
+                        "reregistered_while_held": 1000, "reads_interleaved": 10000, "twin_instances": 5000, "twin_checks": 5000,
+                        "bystander_cases": 5000, "odd_priority_cases": 10000, "odd_timeout_cases": 10000,
+                        "watchdog_expiry_judged": 1500, "final_shutdowns": 20000, "request_list_mutated": 200,
+                        "session_operations": 9000, "session_holder_exits": 300, "session_distinct_ids": 7000}}
 
 
 class Boom(Exception):
     pass
+
+
+def pick(rng, weighted):
+    tot = sum(w for _, w in weighted)
+    x = rng.random() * tot
+    for v, w in weighted:
+        x -= w
+        if x < 0:
+            return v
+    return weighted[-1][0]
+
+
+def fresh(s):
+    """an equal but distinct str object (never the interned literal)"""
+    return s[:1] + s[1:] if len(s) > 1 else s
+
+
+def priorities(scheme, rel):
+    """(priority of the judged operation, priority of the pre-existing holder) for holder relation rel in -1/0/+1"""
+    if scheme == "int5":
+        return 5, 5 + rel
+    if scheme == "zero":
+        return 0, rel
+    if scheme == "big":
+        return 2 ** 53 + 1, 2 ** 53 + 1 + rel
+    if scheme == "ulp":
+        a = 0.1 + 0.2
+        return a, {-1: 0.3, 0: 0.1 + 0.2, 1: math.nextafter(a, 1.0)}[rel]
+    if scheme == "signedzero":
+        return 0.0, {-1: -5e-324, 0: -0.0, 1: 5e-324}[rel]
+    if scheme == "inf":
+        return {-1: (float("inf"), 1e308), 0: (float("inf"), float("inf")), 1: (1e308, float("inf"))}[rel]
+    if scheme == "nan_op":
+        return float("nan"), 5 + rel
+    if scheme == "nan_holder":
+        return 5, float("nan")
+    raise AssertionError(scheme)
+
+
+def make_checkpoints(kind, Checkpoint, Phase):
+    """user-supplied checkpoint configurations (None = library default)"""
+    if kind == "custom_full":
+        return {ph: [Checkpoint(phase=ph, condition=lambda c: True, name="user-%s" % ph.value)] for ph in (Phase.G0, Phase.G1, Phase.S, Phase.G2, Phase.M)}
+    if kind == "custom_partial":
+        return {Phase.G1: [Checkpoint(phase=Phase.G1, condition=lambda c: c.resources_acquired, name="user-g1")]}
+    return None
 
 
 def run_case(ctx, n):
@@ -84,11 +161,13 @@ def run_case(ctx, n):
     import operon_ai.coordination.types as tmod
     import operon_ai.coordination.watchdog as wmod
     from operon_ai.coordination.system import CoordinationSystem
-    from operon_ai.coordination.controller import Checkpoint
-    from operon_ai.coordination.types import Phase, LockResult
+    from operon_ai.coordination.controller import Checkpoint, CellCycleController
+    from operon_ai.coordination.types import Phase
     from datetime import timedelta
 
     total, L = space(ctx.tier)
+    if n >= total:
+        return session_case(ctx, n - total)
     idx = n
     idx, fi = divmod(idx, len(FAULTS))
     idx, hi = divmod(idx, len(HOLDERS))
@@ -96,40 +175,209 @@ def run_case(ctx, n):
     mi = idx % len(MASKS)
     fault, holder, req, mask = FAULTS[fi], HOLDERS[hi], list(L[li]), MASKS[mi]
     rng = ctx.rng(n)
+    rrng = ctx.rng(n, "reads")
     use_cell = rng.random() < 0.15      # (not a function of n modulo anything: every fault point must meet both entry points)
+    # ---- modifiers (independent of the enumerated coordinates)
+    cfg = pick(rng, [("default", 52), ("custom_full", 12), ("custom_partial", 12), ("g2_replaced", 12), ("g2_empty", 12)])
+    tmo = pick(rng, [("100s", 58), ("subsecond", 11), ("multiday", 11), ("none", 10), ("zero", 10)])
+    if tmo == "zero" and fault == "watchdog_in_g0_cp":
+        tmo = "100s"        # (whether a zero timeout kills is not judged; here the acquisition model would depend on it)
+    scheme = pick(rng, [("int5", 46), ("zero", 8), ("big", 8), ("ulp", 8), ("signedzero", 6), ("inf", 8), ("nan_op", 8), ("nan_holder", 8)])
+    vmode = VMODE_OF_FAULT.get(fault) or pick(rng, [("true", 52), ("false", 18), ("zero", 8), ("raises", 10), ("absent", 6), ("truthy", 6)])
+    reads = rng.random() < 0.3
+    rereg = None
+    if rng.random() < 0.25:
+        rereg = {"point": rng.choice(["pre", "work", "work", "validate", "cp"]), "res": rng.choice(RES), "flip": rng.random() < 0.5}
+        if rereg["point"] == "cp" and not fault.startswith(("s_", "g2_", "kill_in_s", "kill_in_g2")):
+            rereg["point"] = "work"
+    twin_on = rng.random() < 0.2
+    bystander = rng.random() < 0.3
+    mutate_req = rng.random() < 0.1
+    mutate_clear = rng.random() < 0.5
+    maskstyle = rng.choice(["bool", "bool", "int", "sparse"])
+    extra_timeouts = rng.random() < 0.15
+    tmo_td, adv = {"100s": (timedelta(seconds=100), 1000.0), "subsecond": (timedelta(seconds=0.25), 0.9),
+                   "multiday": (timedelta(days=1, seconds=100), 2 * 86400 + 50.0), "none": (None, 1000.0), "zero": (timedelta(0), 1000.0)}[tmo]
+    wd_kills = tmo in ("100s", "subsecond", "multiday")
+    wd_unjudged = tmo == "zero"
     clock = VClock()   # real 'now' as base: dataclass default factories captured the real utcnow
+    rel = holder[1] if holder else 0
+    OP_PRIO, H_PRIO = priorities(scheme, rel)
+    if scheme != "int5":
+        ctx.count("odd_priority_cases")
+    if tmo != "100s":
+        ctx.count("odd_timeout_cases")
     desc = {"preemptable": {"r1": mask[0], "r2": mask[1], "r3": False}, "request": req, "holder": holder, "fault": fault,
-            "entry": "IntegratedCell.execute" if use_cell else "CoordinationSystem.execute_operation", "followups": []}
+            "entry": "IntegratedCell.execute" if use_cell else "CoordinationSystem.execute_operation", "followups": [],
+            "checkpoints": cfg, "max_operation_time": tmo, "priorities": [scheme, repr(OP_PRIO), repr(H_PRIO)], "validation": vmode,
+            "reregister": rereg, "reads": reads, "twin": twin_on, "bystander": bystander, "mask_style": maskstyle}
 
     def viol(mech, what):
         ctx.violation(mech, what, desc)
 
-    with patched(clock, cmod, tmod, wmod):
-        if use_cell:
-            from operon_ai.cell import IntegratedCell
-            cell = IntegratedCell(max_operation_time=timedelta(seconds=100))
-            system = cell.coordination
-            ctx.count("cell_entry")
+    def flagval(b):
+        if maskstyle == "int":
+            return 1 if b else 0
+        if maskstyle == "sparse" and not b:
+            return None
+        return bool(b)
+
+    def register(target, rid, b):
+        if maskstyle == "sparse" and not b and rng.random() < 0.5:
+            target.register_resource(rid)               # the default of the optional parameter
         else:
-            cell = None
-            system = CoordinationSystem(max_operation_time=timedelta(seconds=100))
+            target.register_resource(rid, flagval(b))
+
+    def build(as_cell, kind, td, **kw):
+        cps = make_checkpoints(kind, Checkpoint, Phase)
+        if as_cell:
+            from operon_ai.cell import IntegratedCell
+            c = IntegratedCell(max_operation_time=td)
+            s = c.coordination
+            if cps is not None:
+                s.controller.checkpoints = cps
+        else:
+            c = None
+            if cps is not None:
+                s = CoordinationSystem(max_operation_time=td, controller=CellCycleController(checkpoints=cps), **kw)
+            else:
+                s = CoordinationSystem(max_operation_time=td, **kw)
+        if kind == "g2_replaced":
+            s.controller.checkpoints[Phase.G2] = [Checkpoint(phase=Phase.G2, condition=lambda c_: True, name="user-g2")]
+        elif kind == "g2_empty":
+            s.controller.checkpoints[Phase.G2] = []
+        return c, s
+
+    with patched(clock, cmod, tmod, wmod):
+        kw = {}
+        if extra_timeouts and not use_cell:
+            kw = {"starvation_timeout": timedelta(seconds=rng.choice([0.5, 50, 90000])), "progress_timeout": timedelta(seconds=rng.choice([0.5, 50, 90000]))}
+        cell, system = build(use_cell, cfg, tmo_td, **kw)
+        if use_cell:
+            ctx.count("cell_entry")
+        if cfg != "default":
+            ctx.count("custom_checkpoint_configs")
         ctl = system.controller
-        system.register_resource("r1", allow_preemption=mask[0])
-        system.register_resource("r2", allow_preemption=mask[1])
-        system.register_resource("r3", allow_preemption=False)
-        system.register_resource("r4", allow_preemption=False)     # only ever used by the nested operation
-        locks = ctl.resources
-        OP_PRIO = 5
+        front = cell if cell is not None else system
+        register(front, "r1", mask[0])
+        register(front, "r2", mask[1])
+        register(front, "r3", False)
+        register(front, "r4", False)     # only ever used by the nested operation
+        ALL = list(RES)
+        if bystander:
+            # a live bystander holds a resource whose id differs from r1 only in case; nobody ever requests it
+            ctx.count("bystander_cases")
+            front.register_resource("R1", True)
+            xctx = system.start_operation("X", "agent-x", priority=-1)
+            ctl.acquire_resource(xctx, "R1")
+            ALL = RES + ["R1"]
+        # ---- a second instance, configured differently, with the same resource / operation ids
+        twin = tcell = None
+        if twin_on:
+            ctx.count("twin_instances")
+            tcell, twin = build(rng.random() < 0.3, rng.choice(["default", "custom_full", "g2_empty"]), timedelta(seconds=7))
+            tfront = tcell if tcell is not None else twin
+            tfront.register_resource("r1", not mask[0])
+            tfront.register_resource("r2", not mask[1])
+            tfront.register_resource("r3", True)
+            tfront.register_resource("r4", True)
+            t_op = twin.start_operation("op", "agent-a", priority=9)
+            twin.controller.acquire_resource(t_op, "r1")
+            twin.controller.acquire_resource(t_op, "r4")
+            t_h = twin.start_operation("H", "agent-h", priority=9)
+            twin.controller.acquire_resource(t_h, "r2")
+
+        def twin_state():
+            tc = twin.controller
+            return ({r: (tc.resources[r].owner, tc.resources[r].hold_count) for r in RES + ["r4"]}, sorted(tc.active_operations))
+
+        def twin_unchanged(t0, when):
+            ctx.count("twin_checks")
+            t1 = twin_state()
+            if t1 != t0:
+                viol("other-instance-touched", "%s changed a second CoordinationSystem instance: %s -> %s" % (when, t0, t1))
+                return False
+            return True
+
         # ---- pre-existing holder
         hctx = None
         if holder is not None:
-            hres, rel = holder
-            hctx = system.start_operation("H", "agent-h", priority=OP_PRIO + rel)
+            hres = holder[0]
+            hctx = system.start_operation("H", "agent-h", priority=H_PRIO)
             for r in hres:
-                ctl.acquire_resource(hctx, r)
+                ctl.acquire_resource(hctx, fresh(r))
         # ---- fault wiring
         log = []
         sampled = {}
+        reregd = set()
+
+        def snap():
+            res_ = ctl.resources
+            return {r: ((res_[r].owner, res_[r].hold_count) if r in res_ else ("<not registered>", 0)) for r in ALL}
+
+        def do_reads(where):
+            if not reads:
+                return
+            for _ in range(rrng.randint(1, 3)):
+                ctx.count("reads_interleaved")
+                which = rrng.randrange(10)
+                try:
+                    if which == 0:
+                        system.health()
+                    elif which == 1:
+                        (cell.health() if cell is not None else system.health())
+                    elif which == 2:
+                        ctl.stats()
+                    elif which == 3:
+                        system.watchdog.stats()
+                        system.watchdog.check(ctl)
+                    elif which == 4:
+                        ctl.check_deadlock()
+                    elif which == 5:
+                        system.priority_manager.stats()
+                        system.priority_manager.is_boosted(fresh("op"))
+                        system.priority_manager.get_boost("H")
+                    elif which == 6:
+                        repr(system)
+                        repr(ctl.active_operations.get("op"))
+                    elif which == 7:
+                        for lk in list(ctl.resources.values()):
+                            lk.is_available
+                            lk.hold_duration
+                            repr(lk)
+                    elif which == 8:
+                        if clock.offset == 0:       # nothing can have expired yet: maintenance must be a no-op for ownership
+                            ctx.count("maintenance_without_expiry")
+                            (cell.run_maintenance() if cell is not None and rrng.random() < 0.5 else system.run_maintenance())
+                    else:
+                        list(ctl.active_operations.items())
+                        dict(ctl.resources)
+                except Exception as e:      # a reporting API that raises is not a C14 matter; keep the session going
+                    ctx.count("read_api_raised")
+                    desc.setdefault("read_errors", []).append("%s:%d:%r" % (where, which, e))
+
+        def do_rereg(where):
+            rid = rereg["res"]
+            cur = bool(ctl.resources[rid].allow_preemption)
+            new = (not cur) if rereg["flip"] else cur
+            ctx.count("reregistrations")
+            if ctl.resources[rid].owner is not None:
+                ctx.count("reregistered_while_held")
+            front.register_resource(fresh(rid), flagval(new))
+            desc["preemptable"][rid] = new
+            if where != "pre":
+                reregd.add(rid)
+
+        def shutdown():
+            (cell.shutdown() if cell is not None else system.shutdown())
+
+        def expire_and_maintain(via_cell_ok=True):
+            clock.advance(adv)
+            sampled["slack_ok"] = (_rtime.time() - clock.base) < 0.5 * (adv - (tmo_td.total_seconds() if tmo_td else 0.0))
+            if cell is not None and via_cell_ok:
+                cell.run_maintenance()
+            else:
+                system.run_maintenance()
 
         def cp_fault(kind):
             def cond(c):
@@ -137,6 +385,10 @@ def run_case(ctx, n):
                     return True
                 log.append("cp:" + kind)
                 ctx.count("checkpoint_faults_hit")
+                do_reads("cp")
+                if rereg and rereg["point"] == "cp" and "cp_rereg" not in sampled and "main_done" not in sampled:
+                    sampled["cp_rereg"] = True
+                    do_rereg("cp")
                 if kind.endswith("raise_empty"):
                     raise Boom()
                 if kind.endswith("raise"):
@@ -145,20 +397,19 @@ def run_case(ctx, n):
                     if "killed" not in sampled:
                         sampled["killed"] = True
                         ctx.count("kills_from_checkpoint")
-                        system.kill_operation("op", "killed from a checkpoint condition")
+                        system.kill_operation(fresh("op"), "killed from a checkpoint condition")
                     return True
                 if kind.startswith("shutdown_in"):
                     if "killed" not in sampled:
                         sampled["killed"] = True
                         ctx.count("kills_from_checkpoint")
-                        system.shutdown()
+                        shutdown()
                     return True
                 if kind.startswith("watchdog_in"):
                     if "killed" not in sampled:
                         sampled["killed"] = True
                         ctx.count("kills_from_checkpoint")
-                        clock.advance(1000.0)
-                        system.run_maintenance()
+                        expire_and_maintain(False)
                     return True
                 return False
             return cond
@@ -167,52 +418,79 @@ def run_case(ctx, n):
         if fault.endswith("_cp"):
             ph = phase_of[fault.split("_")[2]]
         if ph is not None:
-            ctl.checkpoints[ph] = list(ctl.checkpoints[ph]) + [Checkpoint(phase=ph, condition=cp_fault(fault), name="injected")]
-
-        def snap():
-            return {r: (locks[r].owner, locks[r].hold_count) for r in RES}
+            ctl.checkpoints[ph] = list(ctl.checkpoints.get(ph, [])) + [Checkpoint(phase=ph, condition=cp_fault(fault), name="injected")]
+        req_obj = [fresh(r) for r in req]
 
         def work():
             log.append("work")
-            sampled["own"] = {r: locks[r].owner for r in RES}
+            sampled["own"] = {r: ctl.resources[r].owner for r in RES}
             sampled["active"] = "op" in ctl.active_operations
             ctx.count("work_runs_sampled")
+            do_reads("work")
             if fault.startswith("nested"):
                 ctx.count("nested_operations")
-                inner = system.execute_operation("inner", "agent-i", lambda: "inner-result", resources=["r4"], priority=OP_PRIO)
+                if fault == "nested_preempts":
+                    # an inner operation of higher priority asks for the outer operation's own resources (+ r4)
+                    inner = system.execute_operation("inner", "agent-i", lambda: RESULT, resources=[fresh(r) for r in req] + ["r4"],
+                                                     priority=OP_PRIO + 1 if isinstance(OP_PRIO, int) else OP_PRIO)
+                else:
+                    inner = system.execute_operation("inner", "agent-i", lambda: "inner-result", resources=["r4"], priority=OP_PRIO)
                 sampled["inner_success"] = inner.success
+            if rereg and rereg["point"] == "work":
+                do_rereg("work")
+            if mutate_req:
+                ctx.count("request_list_mutated")
+                if mutate_clear:
+                    del req_obj[:]
+                else:
+                    req_obj.append("unknown")
             if fault == "work_raises_empty":
                 raise Boom()            # an exception without a message
             if fault in ("work_raises", "nested_work_raises"):
                 raise make_exception(n, "work failed")
             if fault == "kill_in_work":
                 ctx.count("kills_inside_work")
-                system.kill_operation("op", "killed from inside")
+                system.kill_operation(fresh("op"), "killed from inside")
+            if fault == "shutdown_in_work":
+                ctx.count("kills_inside_work")
+                shutdown()
             if fault == "watchdog_in_work":
                 ctx.count("kills_inside_work")
-                clock.advance(1000.0)
-                if cell is not None:
-                    cell.run_maintenance()
-                else:
-                    system.run_maintenance()
-            return 0 if fault == "work_falsy" else {"answer": 42}
+                expire_and_maintain()
+            return 0 if fault == "work_falsy" else RESULT
 
         def validate(res):
             log.append("validate")
-            if fault == "validate_raises_empty":
+            do_reads("validate")
+            if rereg and rereg["point"] == "validate":
+                do_rereg("validate")
+            if fault == "kill_in_validate":
+                ctx.count("kills_inside_validate")
+                system.kill_operation(fresh("op"), "killed from inside the validator")
+            if fault == "shutdown_in_validate":
+                ctx.count("kills_inside_validate")
+                shutdown()
+            if fault == "watchdog_in_validate":
+                ctx.count("kills_inside_validate")
+                expire_and_maintain()
+            if vmode == "raises_empty":
                 raise ValueError()
-            if fault == "validate_assert":
+            if vmode == "assert":
                 assert res is None      # a bare assert: AssertionError without a message
-            if fault in ("validate_raises", "nested_validate_raises"):
+            if vmode == "raises":
                 raise make_exception(n + 3, "validator exploded")
-            return fault not in ("validate_false", "nested_validate_false")
+            return {"true": True, "truthy": "accepted", "false": False, "zero": 0}[vmode]
 
+        if rereg and rereg["point"] == "pre":
+            do_rereg("pre")         # the holder (if it held that id) keeps an orphaned lock object; the registered one is new
+        do_reads("pre")
         # ---- model: which acquisitions succeed
         before = snap()
+        twin_before = twin_state() if twin is not None else None
         own = dict((r, before[r][0]) for r in RES)
-        if fault in ("shutdown_in_g0_cp", "watchdog_in_g0_cp"):
+        if fault == "shutdown_in_g0_cp" or (fault == "watchdog_in_g0_cp" and wd_kills):
             own = {r: (None if o == "H" else o) for r, o in own.items()}     # the holder is gone before the acquisitions start
-        prio = {"H": OP_PRIO + (holder[1] if holder else 0)}
+        prio = {"H": H_PRIO}
         obtained = {}          # resource -> times obtained by op
         stopped = None
         for r in req:
@@ -234,17 +512,19 @@ def run_case(ctx, n):
                 ctx.count("blocked_acquisitions")
                 break
         ctx.count("execute_calls")
-        vf = None if fault == "validate_absent" else validate
+        vf = None if vmode == "absent" else validate
         try:
             if cell is not None:
-                cres = cell.execute("agent-a", "op", work, resources=list(req), validate_fn=vf, priority=OP_PRIO)
+                cres = cell.execute("agent-a", fresh("op"), work, resources=req_obj, validate_fn=vf, priority=OP_PRIO)
                 success = cres.success
             else:
-                res = system.execute_operation("op", "agent-a", work, resources=list(req), validate_fn=vf, priority=OP_PRIO)
+                res = system.execute_operation(fresh("op"), "agent-a", work, resources=req_obj, validate_fn=vf, priority=OP_PRIO)
                 success = res.success
         except BaseException as e:
             viol("execute-raises", "execute raised %r" % (e,))
             return
+        sampled["main_done"] = True
+        do_reads("post")
         after = snap()
         desc["log"] = list(log)
         desc["before"], desc["after"] = before, after
@@ -256,18 +536,35 @@ def run_case(ctx, n):
                 mech = "reentrant-hold-leak" if obtained.get(r, 0) > 1 else "resource-leak:%s" % path
                 viol(mech, "%s still owned by the finished operation (hold_count %d) after exit path %s" % (r, after[r][1], path))
                 return
-        if locks["r4"].owner is not None or "inner" in ctl.active_operations:
-            viol("resource-leak:nested-operation", "nested operation left r4 owned by %r / active=%s" % (locks["r4"].owner, "inner" in ctl.active_operations))
+        if ctl.resources["r4"].owner is not None or "inner" in ctl.active_operations or any(after[r][0] == "inner" for r in RES):
+            viol("resource-leak:nested-operation", "nested operation left %s owned / active=%s" % (
+                [r for r in RES + ["r4"] if ctl.resources[r].owner == "inner"], "inner" in ctl.active_operations))
             return
         if "op" in ctl.active_operations:
             viol("still-active:%s" % path, "operation still listed as active after exit path %s" % path)
             return
-        # 2. never-obtained resources untouched (a holder killed by the watchdog fault legitimately loses its locks)
-        holder_killed = (fault == "watchdog_in_work" and "work" in log) or fault in ("shutdown_in_g0_cp", "watchdog_in_g0_cp")
-        for r in RES:
-            if r not in obtained and after[r] != before[r] and not (holder_killed and before[r][0] == "H"):
-                viol("untouched-resource-changed:%s" % path, "%s was never obtained by the operation but went %s -> %s" % (r, before[r], after[r]))
-                return
+        # 2. never-obtained resources untouched (a holder killed by a shutdown / expired watchdog fault legitimately loses its locks;
+        #    an id the harness registered again during the call is the harness's own doing)
+        wd_ran = (fault == "watchdog_in_work" and "work" in log) or (fault == "watchdog_in_validate" and "validate" in log) or (
+            fault == "watchdog_in_g0_cp" and "killed" in sampled)
+        sd_ran = (fault == "shutdown_in_work" and "work" in log) or (fault == "shutdown_in_validate" and "validate" in log) or (
+            fault == "shutdown_in_g0_cp" and "killed" in sampled)
+        holders_killed = sd_ran or (wd_ran and wd_kills)
+        for r in ALL:
+            if r in obtained or r in reregd or after[r] == before[r]:
+                continue
+            if before[r][0] in ("H", "X") and after[r] == (None, 0) and (holders_killed or (wd_ran and wd_unjudged)):
+                continue
+            viol("untouched-resource-changed:%s" % path, "%s was never obtained by the operation but went %s -> %s" % (r, before[r], after[r]))
+            return
+        if wd_ran and wd_kills and sampled.get("slack_ok"):
+            ctx.count("watchdog_expiry_judged")
+            for oid in ("H", "X"):
+                if oid in ctl.active_operations:
+                    viol("watchdog-timeout-not-enforced", "operation %s exceeded max_operation_time (%s, clock advanced %s s) and is still active after maintenance" % (oid, tmo, adv))
+                    return
+        if twin is not None and not twin_unchanged(twin_before, "the judged operation"):
+            return
         # 3. work / validate discipline
         nwork, nval = log.count("work"), log.count("validate")
         if nwork > 1:
@@ -289,16 +586,23 @@ def run_case(ctx, n):
             viol("validate-ran-twice", "validate_fn ran %d times" % nval)
             return
         if nval == 1:
-            if nwork != 1 or fault in ("work_raises", "nested_work_raises", "work_raises_empty") or log.index("validate") < log.index("work"):
+            if nwork != 1 or fault in WORK_EXC or log.index("validate") < log.index("work"):
                 viol("validate-before-work-completed", "validate ran with log %s" % log)
                 return
         # 4. success only if both succeeded
+        val_ok = vmode in ("true", "truthy", "absent")
+        if nval == 1 and not val_ok:
+            ctx.count("validation_rejected_after_work")
+            if cfg != "default":
+                ctx.count("rejected_under_custom_config")
+            if fault in ("kill_in_work", "shutdown_in_work", "watchdog_in_work", "kill_in_validate", "shutdown_in_validate", "watchdog_in_validate",
+                         "kill_in_s_cp"):
+                ctx.count("rejected_after_kill")
         if success:
-            ok = nwork == 1 and fault not in ("work_raises", "nested_work_raises", "work_raises_empty") and (
-                vf is None or (nval == 1 and fault not in ("validate_false", "validate_raises", "nested_validate_false", "nested_validate_raises",
-                                                           "validate_raises_empty", "validate_assert")))
+            ok = nwork == 1 and fault not in WORK_EXC and (vf is None or (nval == 1 and val_ok))
             if not ok:
-                viol("success-without-work-and-validation:%s" % fault, "success reported with log %s under fault %s" % (log, fault))
+                key = fault if (val_ok or fault in VMODE_OF_FAULT) else "%s+validate_%s" % (fault, vmode)
+                viol("success-without-work-and-validation:%s" % key, "success reported with log %s under fault %s, validation verdict %s, checkpoints %s" % (log, fault, vmode, cfg))
                 return
             if stopped is not None:
                 viol("success-without-resources", "success reported although acquisition stopped (%s)" % stopped)
@@ -306,10 +610,27 @@ def run_case(ctx, n):
         # ---- follow-ups
         for k in range(rng.randint(0, 3)):
             ctx.count("followup_ops")
-            choice = rng.choice(["op2", "holder_complete", "holder_abort", "holder_kill", "watchdog", "shutdown", "op_again", "k_hold", "k_hold", "holder_release_one", "holder_release_one"])
+            choice = rng.choice(["op2", "holder_complete", "holder_abort", "holder_kill", "watchdog", "shutdown", "op_again", "k_hold", "k_hold",
+                                 "holder_release_one", "holder_release_one", "reregister", "reads"])
             desc["followups"].append(choice)
             b2 = snap()
+            tb2 = twin_state() if twin is not None else None
             try:
+                if choice == "reads":
+                    do_reads("between")
+                    if reads and snap() != b2:
+                        viol("read-api-changes-ownership", "read-only calls between operations changed ownership: %s -> %s" % (b2, snap()))
+                        return
+                    continue
+                if choice == "reregister":
+                    rid = rng.choice(RES)
+                    ctx.count("reregistrations")
+                    if ctl.resources[rid].owner is not None:
+                        ctx.count("reregistered_while_held")
+                    newflag = rng.random() < 0.5
+                    front.register_resource(rid, newflag)
+                    desc["followups"][-1] = "reregister:%s:%s" % (rid, newflag)
+                    continue
                 if choice == "holder_release_one":
                     if hctx is not None and "H" in ctl.active_operations and hctx.acquired_resources:
                         rr = rng.choice(sorted(hctx.acquired_resources))
@@ -330,12 +651,12 @@ def run_case(ctx, n):
                     ran = []
                     r2 = system.execute_operation(oid, "agent-b", lambda: ran.append(1) or "x", resources=req2, priority=rng.choice([1, 5, 9]))
                     a2 = snap()
-                    for r in RES:
-                        if b2[r][0] not in (None, oid) and a2[r] != b2[r] and not (a2[r] == (None, 0) and locks[r].allow_preemption):
+                    for r in ALL:
+                        if b2[r][0] not in (None, oid) and a2[r] != b2[r] and not (a2[r] == (None, 0) and ctl.resources[r].allow_preemption and r in req2):
                             viol("exit-touches-foreign-lock:followup", "operation %s requesting %s changed %s, owned by %s: %s -> %s" % (
                                 oid, req2, r, b2[r][0], b2[r], a2[r]))
                             return
-                    leak = [r for r in RES if a2[r][0] == oid]
+                    leak = [r for r in ALL if a2[r][0] == oid]
                     if leak or oid in ctl.active_operations:
                         mech = "reentrant-hold-leak" if any(req2.count(r) > 1 for r in leak) else "resource-leak:followup"
                         viol(mech, "follow-up operation %s requesting %s left %s owned / active=%s" % (oid, req2, leak, oid in ctl.active_operations))
@@ -350,39 +671,41 @@ def run_case(ctx, n):
                         elif choice == "holder_abort":
                             ctl.abort_operation(hctx, "test")
                         else:
-                            system.kill_operation("H", "manual")
+                            system.kill_operation(fresh("H"), "manual")
                         ctx.count("holder_exits_checked")
                         a2 = snap()
-                        for r in RES:
+                        for r in ALL:
                             if b2[r][0] not in (None, "H") and a2[r] != b2[r]:
                                 viol("exit-touches-foreign-lock:%s" % choice, "holder exit via %s changed %s, owned by %s: %s -> %s" % (
                                     choice, r, b2[r][0], b2[r], a2[r]))
                                 return
-                        leak = [r for r in RES if a2[r][0] == "H"]
+                        leak = [r for r in ALL if a2[r][0] == "H"]
                         if leak or "H" in ctl.active_operations:
                             multi = any(holder[0].count(r) > 1 for r in leak)
                             viol("reentrant-hold-leak" if multi else "resource-leak:%s" % choice,
                                  "holder exit via %s left %s owned by H" % (choice, leak))
                             return
                 elif choice == "watchdog":
-                    clock.advance(1000.0)
-                    system.run_maintenance()
+                    expire_and_maintain()
                     ctx.count("holder_exits_checked")
                     a2 = snap()
-                    for oid in ("H", "op", "op2", "K"):
-                        leak = [r for r in RES if a2[r][0] == oid]
+                    for oid in ("H", "op", "op2", "K", "X"):
+                        leak = [r for r in ALL if a2[r][0] == oid]
                         if leak and oid not in ctl.active_operations:
                             multi = oid == "H" and holder and any(holder[0].count(r) > 1 for r in leak)
                             viol("reentrant-hold-leak" if multi else "resource-leak:watchdog", "watchdog kill left %s owned by %s" % (leak, oid))
                             return
-                    if "H" in ctl.active_operations or "K" in ctl.active_operations:
-                        viol("watchdog-timeout-not-enforced", "operation H exceeded max_operation_time and is still active after watchdog.execute")
-                        return
+                    if wd_kills and sampled.get("slack_ok"):
+                        ctx.count("watchdog_expiry_judged")
+                        still = [o for o in ("H", "K", "X") if o in ctl.active_operations]
+                        if still:
+                            viol("watchdog-timeout-not-enforced", "operation(s) %s exceeded max_operation_time (%s, clock advanced by %s s) and are still active after watchdog.execute" % (still, tmo, adv))
+                            return
                 elif choice == "shutdown":
-                    system.shutdown()
+                    shutdown()
                     ctx.count("holder_exits_checked")
                     a2 = snap()
-                    owned = {r: a2[r] for r in RES if a2[r][0] is not None}
+                    owned = {r: a2[r] for r in ALL if a2[r][0] is not None}
                     if owned or ctl.active_operations:
                         multi = holder and any(holder[0].count(r) > 1 for r in owned)
                         viol("reentrant-hold-leak" if multi else "resource-leak:shutdown", "after shutdown: owned=%s active=%s" % (owned, list(ctl.active_operations)))
@@ -390,10 +713,280 @@ def run_case(ctx, n):
             except BaseException as e:
                 viol("followup-raises:%s" % choice, "%s raised %r" % (choice, e))
                 return
+            if twin is not None and not twin_unchanged(tb2, "follow-up %s" % choice):
+                return
+        # ---- the other instance is used in turn: it must work on its own locks only
+        try:
+            if twin is not None:
+                b3 = snap()
+                act3 = sorted(ctl.active_operations)
+                tran = []
+                tres = twin.execute_operation("t", "agent-t", lambda: tran.append(1) or RESULT, resources=["r3", "r1", "r4"], priority=rng.choice([0, 5]))
+                tc = twin.controller
+                if any(tc.resources[r].owner == "t" for r in RES + ["r4"]) or "t" in tc.active_operations:
+                    viol("resource-leak:followup", "operation on the second instance left %s owned / active=%s" % (
+                        [r for r in RES + ["r4"] if tc.resources[r].owner == "t"], "t" in tc.active_operations))
+                    return
+                if tres.success or tran:
+                    viol("work-without-resources:blocked", "operation on the second instance ran (success=%s, work runs %d) although r1 is held there by a live operation of equal or higher priority" % (tres.success, len(tran)))
+                    return
+                (tcell.shutdown() if tcell is not None else twin.shutdown())
+                towned = [r for r in RES + ["r4"] if tc.resources[r].owner is not None]
+                if towned or tc.active_operations:
+                    viol("resource-leak:shutdown", "after shutdown of the second instance: owned=%s active=%s" % (towned, list(tc.active_operations)))
+                    return
+                if snap() != b3 or sorted(ctl.active_operations) != act3:
+                    viol("other-instance-touched", "operation + shutdown on the second instance changed the first: %s -> %s, active %s -> %s" % (
+                        b3, snap(), act3, sorted(ctl.active_operations)))
+                    return
+            # ---- every case ends with a shutdown: nothing registered stays owned, nothing stays active
+            ctx.count("final_shutdowns")
+            shutdown()
+            a3 = {r: (lk.owner, lk.hold_count) for r, lk in ctl.resources.items()}
+            owned = {r: v for r, v in a3.items() if v[0] is not None}
+            if owned or ctl.active_operations:
+                multi = holder and any(holder[0].count(r) > 1 for r in owned)
+                viol("reentrant-hold-leak" if multi else "resource-leak:shutdown", "after the final shutdown: owned=%s active=%s" % (owned, list(ctl.active_operations)))
+                return
+        except BaseException as e:
+            viol("followup-raises:final", "final twin operation / shutdown raised %r" % (e,))
+            return
     if fault != "none" or stopped is not None or any(v > 1 for v in obtained.values()) or holder is not None:
         ctx.nontrivial((mi, li, hi, fi))
     if n % 9973 == 0:
         ctx.sample(desc)
+
+
+# ------------------------------------------------------------------------------------------------------------------
+def session_case(ctx, k):
+    """One long-lived instance, tens of thousands of operations with distinct ids, holders coming and going, maintenance,
+    re-registrations and a few watchdog expiries; after EVERY call the same obligations as in the enumerated cases."""
+    import operon_ai.coordination.controller as cmod
+    import operon_ai.coordination.types as tmod
+    import operon_ai.coordination.watchdog as wmod
+    from operon_ai.coordination.system import CoordinationSystem
+    from operon_ai.coordination.controller import Checkpoint
+    from operon_ai.coordination.types import Phase
+    from datetime import timedelta
+
+    rng = ctx.rng("session", k)
+    nops = SESSION_OPS[ctx.tier]
+    clock = VClock()
+    SRES = ["s0", "s1", "s2", "s3"]
+    TIMEOUT = 3 * 86400.0
+    desc = {"session": k, "operations": nops, "trail": []}
+
+    def viol(mech, what):
+        ctx.violation(mech, what, dict(desc, trail=desc["trail"][-12:]))
+
+    with patched(clock, cmod, tmod, wmod):
+        cell = None
+        if k % 3 == 2:
+            from operon_ai.cell import IntegratedCell
+            cell = IntegratedCell(max_operation_time=timedelta(seconds=TIMEOUT), pool_capacity=10 ** 6)
+            system = cell.coordination
+        else:
+            system = CoordinationSystem(max_operation_time=timedelta(seconds=TIMEOUT))
+        ctl = system.controller
+        front = cell if cell is not None else system
+        for i, r in enumerate(SRES):
+            front.register_resource(r, bool((k + i) % 2))
+        cpf = {}
+
+        def cond_for(phase):
+            def cond(c):
+                f = cpf.get(c.operation_id)
+                if f and f[0] == phase:
+                    if f[1] == "raise":
+                        raise make_exception(len(desc["trail"]), "checkpoint exploded")
+                    return False
+                return True
+            return cond
+        for phs in (Phase.G0, Phase.G1, Phase.S, Phase.G2):
+            ctl.checkpoints[phs] = list(ctl.checkpoints.get(phs, [])) + [Checkpoint(phase=phs, condition=cond_for(phs), name="injected")]
+        live = {}           # holder id -> context
+        SFAULTS = ["none"] * 6 + ["work_raises", "validate_false", "validate_raises", "kill_in_work", "cp_false", "cp_raise", "validate_absent", "kill_in_validate"]
+
+        def snap():
+            res_ = ctl.resources
+            return {r: (res_[r].owner, res_[r].hold_count) for r in SRES}
+
+        expired = False
+        for i in range(nops):
+            x = rng.random()
+            b = snap()
+            try:
+                if x < 0.72:
+                    ctx.count("session_operations")
+                    req = [rng.choice(SRES) for _ in range(rng.randint(0, 3))]
+                    if rng.random() < 0.03:
+                        req.insert(rng.randint(0, len(req)), "nope")
+                    prio = rng.choice([0, 1, 5, 9, -3, 2 ** 53 + 1, 0.5])
+                    fault = rng.choice(SFAULTS)
+                    # model (preemption decided from the public fields of the live lock)
+                    own = {r: b[r][0] for r in SRES}
+                    obtained, stopped = set(), None
+                    for r in req:
+                        if r == "nope":
+                            stopped = "unknown"
+                            break
+                        lk = ctl.resources[r]
+                        if own[r] is None or own[r] == "self" or (lk.allow_preemption and prio > lk.owner_priority):
+                            own[r] = "self"
+                            obtained.add(r)
+                        else:
+                            stopped = "blocked"
+                            break
+                    if stopped == "blocked" or rng.random() < 0.05:
+                        oid = "b%d" % (i % 150)         # (blocked ids come from a pool: waiting lists are never pruned by the library)
+                    else:
+                        oid = "o%d" % i
+                        ctx.count("session_distinct_ids")
+                    if oid in live or oid in ctl.active_operations:
+                        continue
+                    log = []
+                    own_in_work = {}
+                    if fault.startswith("cp_"):
+                        cpf[oid] = (rng.choice([Phase.G1, Phase.S, Phase.G2]), "raise" if fault == "cp_raise" else "false")
+
+                    def work():
+                        log.append("work")
+                        own_in_work.update({r: ctl.resources[r].owner for r in set(req) if r != "nope"})
+                        if fault == "work_raises":
+                            raise make_exception(i, "work failed")
+                        if fault == "kill_in_work":
+                            system.kill_operation(oid, "from inside")
+                        return RESULT
+
+                    def validate(res):
+                        log.append("validate")
+                        if fault == "kill_in_validate":
+                            system.kill_operation(oid, "from inside the validator")
+                        if fault == "validate_raises":
+                            raise make_exception(i + 3, "validator exploded")
+                        return fault != "validate_false"
+                    vf = None if fault == "validate_absent" else validate
+                    desc["trail"].append(("op", oid, req, repr(prio), fault))
+                    if cell is not None and rng.random() < 0.5:
+                        success = cell.execute("agent-%d" % (i % 7), oid, work, resources=list(req), validate_fn=vf, priority=prio).success
+                    else:
+                        success = system.execute_operation(oid, "agent-%d" % (i % 7), work, resources=list(req), validate_fn=vf, priority=prio).success
+                    cpf.pop(oid, None)
+                    a = snap()
+                    path = fault if stopped is None else stopped
+                    leak = [r for r in SRES if a[r][0] == oid]
+                    if leak:
+                        viol("reentrant-hold-leak" if any(req.count(r) > 1 for r in leak) else "resource-leak:%s" % path,
+                             "long session, operation %d: %s still owned by the finished operation %s" % (i, leak, oid))
+                        return
+                    if oid in ctl.active_operations:
+                        viol("still-active:%s" % path, "long session, operation %d: %s still listed as active" % (i, oid))
+                        return
+                    for r in SRES:
+                        if r not in obtained and a[r] != b[r]:
+                            viol("untouched-resource-changed:%s" % path, "long session, operation %d (%s requesting %s): %s never obtained but went %s -> %s" % (i, oid, req, r, b[r], a[r]))
+                            return
+                    nwork, nval = log.count("work"), log.count("validate")
+                    if nwork > 1:
+                        viol("work-ran-twice", "long session: work_fn ran %d times" % nwork)
+                        return
+                    if nwork and stopped is not None:
+                        viol("work-without-resources:%s" % stopped, "long session: work_fn ran although acquisition stopped (%s)" % stopped)
+                        return
+                    if nwork and any(o != oid for o in own_in_work.values()):
+                        viol("work-without-holding", "long session: work_fn ran with owners %s" % own_in_work)
+                        return
+                    if nval > 1 or (nval and (not nwork or fault == "work_raises" or log.index("validate") < log.index("work"))):
+                        viol("validate-before-work-completed" if nval == 1 else "validate-ran-twice", "long session: log %s" % log)
+                        return
+                    if success and (nwork != 1 or stopped is not None or fault in ("work_raises", "validate_false", "validate_raises") or (vf is not None and nval != 1)):
+                        viol("success-without-work-and-validation:%s" % path, "long session: success reported with log %s under %s" % (log, path))
+                        return
+                elif x < 0.82:
+                    hid = "h%d" % rng.randrange(6)
+                    if hid in live:
+                        continue
+                    hp = rng.choice([0, 2, 7])
+                    hc = system.start_operation(hid, "agent-h", priority=hp)
+                    live[hid] = hc
+                    for r in rng.sample(SRES, rng.randint(1, 2)):
+                        lk = ctl.resources[r]
+                        if lk.owner is not None and not (lk.allow_preemption and hp > lk.owner_priority):
+                            continue        # (a holder never waits: no wait-for cycles, so maintenance has nothing to break)
+                        ctl.acquire_resource(hc, r)
+                        if rng.random() < 0.2:
+                            ctl.acquire_resource(hc, r)
+                    desc["trail"].append(("hold", hid))
+                elif x < 0.92:
+                    if not live:
+                        continue
+                    hid = rng.choice(sorted(live))
+                    hc = live.pop(hid)
+                    how = rng.choice(["complete", "abort", "kill"])
+                    desc["trail"].append(("exit", hid, how))
+                    if how == "complete":
+                        ctl.complete_operation(hc)
+                    elif how == "abort":
+                        ctl.abort_operation(hc, "test")
+                    else:
+                        system.kill_operation(hid, "manual")
+                    ctx.count("session_holder_exits")
+                    a = snap()
+                    leak = [r for r in SRES if a[r][0] == hid]
+                    if leak or hid in ctl.active_operations:
+                        viol("resource-leak:holder_%s" % how, "long session: holder %s exit via %s left %s owned / active=%s" % (hid, how, leak, hid in ctl.active_operations))
+                        return
+                    for r in SRES:
+                        if b[r][0] not in (None, hid) and a[r] != b[r]:
+                            viol("exit-touches-foreign-lock:holder_%s" % how, "long session: exit of %s changed %s: %s -> %s" % (hid, r, b[r], a[r]))
+                            return
+                elif x < 0.975:
+                    # reporting APIs and maintenance; nothing has expired unless the clock was pushed past the timeout
+                    desc["trail"].append(("maintenance", expired))
+                    system.health()
+                    ctl.stats()
+                    system.watchdog.check(ctl)
+                    (cell.run_maintenance() if cell is not None else system.run_maintenance())
+                    a = snap()
+                    if expired:
+                        still = [h for h in live if h in ctl.active_operations]
+                        if still:
+                            viol("watchdog-timeout-not-enforced", "long session: %s older than max_operation_time still active after maintenance" % still)
+                            return
+                        leak = [r for r in SRES if a[r][0] is not None]
+                        if leak:
+                            viol("resource-leak:watchdog", "long session: watchdog kill of every live holder left %s owned" % leak)
+                            return
+                        live.clear()
+                    elif a != b or any(h not in ctl.active_operations for h in live):
+                        viol("untouched-resource-changed:maintenance", "long session: maintenance with nothing expired changed ownership %s -> %s" % (b, a))
+                        return
+                elif x < 0.99:
+                    r = rng.choice(SRES)
+                    desc["trail"].append(("reregister", r))
+                    ctx.count("reregistrations")
+                    if ctl.resources[r].owner is not None:
+                        ctx.count("reregistered_while_held")
+                    front.register_resource(r, rng.random() < 0.5)
+                elif not expired and i > nops // 2 and rng.random() < 0.2:
+                    # a jump of more than four days: from now on every operation that is still alive at a maintenance call is overdue
+                    clock.advance(TIMEOUT + 86400.0 + 50.0)
+                    expired = True
+                    desc["trail"].append(("clock-jump",))
+            except BaseException as e:
+                viol("followup-raises:session", "long session step %d raised %r" % (i, e))
+                return
+        try:
+            (cell.shutdown() if cell is not None else system.shutdown())
+        except BaseException as e:
+            viol("followup-raises:final", "long session: shutdown raised %r" % (e,))
+            return
+        ctx.count("final_shutdowns")
+        owned = {r: (lk.owner, lk.hold_count) for r, lk in ctl.resources.items() if lk.owner is not None}
+        if owned or ctl.active_operations:
+            viol("resource-leak:shutdown", "long session: after shutdown owned=%s active=%s" % (owned, list(ctl.active_operations)[:5]))
+            return
+    ctx.nontrivial(("session", k))
 
 
 if __name__ == "__main__":
